@@ -468,8 +468,13 @@ input(istream &in) {
   idf_input_string(in, _true_name);
 
   in >> _outer_class;
-  int token;
+  int token = 0;
   in >> token;
+  if (token < (int)AT_not_atomic || token > (int)AT_null) {
+    // Not one of the tokens: a damaged file.
+    in.setstate(std::ios::failbit);
+    token = (int)AT_not_atomic;
+  }
   _atomic_token = (AtomicToken)token;
   in >> _wrapped_type;
 
